@@ -393,6 +393,8 @@ pub struct ASpace {
     pub sysconds: String,
     /// SPACE-TYPE attribute (HULC writes the same name as in SYSTEM-CONDITIONS; old LIDER files have only this one)
     pub spacetype: String,
+    /// POWER, VEEI-OBJ, VEEI-REF (lighting power and efficiency values; zeros are legitimate)
+    pub lighting: (f32, f32, f32),
     pub walls: Vec<AWall>,
     pub air_changes: Option<f32>,
 }
@@ -680,6 +682,11 @@ pub fn gen_building(rng: &mut Rng, cfg: &BuildCfg) -> ABuilding {
                 conds: if stype == "UNHABITED" && rng.chance(0.6) { format!("NIVEL_ESTANQUEIDAD_{}", 1 + rng.usize(5)) } else { conds.clone() },
                 sysconds: conds.clone(),
                 spacetype: conds,
+                lighting: (
+                    if rng.chance(0.15) { 0.0 } else if rng.chance(0.5) { 4.4 } else { rng.dec(0.5, 25.0, 2) as f32 },
+                    if rng.chance(0.15) { 0.0 } else if rng.chance(0.5) { 7.0 } else { rng.dec(0.5, 12.0, 2) as f32 },
+                    if rng.chance(0.1) { 0.0 } else { 10.0 },
+                ),
                 walls: vec![],
                 air_changes: if rng.chance(0.2) { Some(rng.dec(0.2, 2.0, 2) as f32) } else { None },
             };
@@ -718,8 +725,16 @@ pub fn gen_building(rng: &mut Rng, cfg: &BuildCfg) -> ABuilding {
                         setback: if rng.chance(0.5) { rng.dec(0.05, 0.4, 2) as f32 } else { 0.0 },
                         overhang: if with_shades && rng.chance(0.6) { Some((rng.dec(0.0, 0.3, 2) as f32, rng.dec(0.0, 0.3, 2) as f32, ww + 0.4, rng.dec(0.2, 1.2, 2) as f32, *rng.pick(&[90.0f32, 90.0, 60.0]))) } else { None },
                         left_fin: if with_shades && rng.chance(0.5) { Some((rng.dec(0.0, 0.3, 2) as f32, rng.dec(0.0, 0.2, 2) as f32, wh, rng.dec(0.2, 1.0, 2) as f32)) } else { None },
-                        right_fin: if with_shades && rng.chance(0.5) { Some((rng.dec(0.0, 0.3, 2) as f32, rng.dec(0.0, 0.2, 2) as f32, wh, rng.dec(0.2, 1.0, 2) as f32)) } else { None },
+                        right_fin: None,
                     });
+                    // the right fin: none, its own, or (the symmetric recessed window) the same as the left one
+                    if with_shades && rng.chance(0.5) {
+                        let win = wall.windows.last_mut().unwrap();
+                        win.right_fin = match win.left_fin {
+                            Some(l) if rng.chance(0.4) => Some(l),
+                            _ => Some((rng.dec(0.0, 0.3, 2) as f32, rng.dec(0.0, 0.2, 2) as f32, wh, rng.dec(0.2, 1.0, 2) as f32)),
+                        };
+                    }
                 }
                 sp.walls.push(wall);
             }
@@ -968,7 +983,7 @@ impl ABuilding {
                 if let Some(i) = s.inside {
                     b = b.w("perteneceALaEnvolventeTermica", if i { "SI" } else { "NO" });
                 }
-                b = b.num("POWER", 4.4).num("VEEI-OBJ", 7.0).num("VEEI-REF", 10.0);
+                b = b.num("POWER", s.lighting.0).num("VEEI-OBJ", s.lighting.1).num("VEEI-REF", s.lighting.2);
                 if let Some(a) = s.air_changes {
                     b = b.num("AIR-CHANGES/HR", a);
                 }
